@@ -263,3 +263,91 @@ Proof.
   rewrite text_roundtrip_origin by assumption. rewrite Ap.
   apply mk_name_valid. exact V.
 Qed.
+
+(* ---------- parse / print / parse is stable ---------- *)
+
+Definition byte_l (l : list Z) : Prop := Forall (fun c => 0 <= c < 256) l.
+
+Lemma ft_loop_bytes : forall t L lab esc ed tot L' lab' esc',
+  byte_l t -> Forall byte_l L -> byte_l lab ->
+  (esc = true -> ed <> 0%nat -> 0 <= tot) ->
+  ft_loop t L lab esc ed tot = Ok (L', lab', esc') ->
+  Forall byte_l L' /\ byte_l lab'.
+Proof.
+  induction t as [|c t IH]; intros L lab esc ed tot L' lab' esc' Ht HL Hlab Htot H.
+  - cbn in H. inversion H; subst. auto.
+  - inversion Ht as [|? ? Hc Ht']; subst. cbn [ft_loop] in H.
+    assert (byte_l (c :: lab)) as Hclab by (constructor; assumption).
+    destruct esc.
+    + destruct ed as [|ed'].
+      * destruct (is_digit c) eqn:D.
+        -- apply (IH _ _ _ _ _ _ _ _ Ht' HL Hlab) in H; [exact H|].
+           intros _ _. unfold is_digit in D. lia.
+        -- apply (IH _ _ _ _ _ _ _ _ Ht' HL Hclab) in H; [exact H|]. intros; discriminate.
+      * destruct (negb (is_digit c)) eqn:D; [discriminate|].
+        apply negb_false_iff in D. unfold is_digit in D.
+        assert (0 <= tot) as T by (apply Htot; [reflexivity|discriminate]).
+        destruct ed' as [|[|ed'']].
+        -- apply (IH _ _ _ _ _ _ _ _ Ht' HL Hlab) in H; [exact H|]. intros _ _. lia.
+        -- destruct (tot * 10 + (c - 48) >? 255) eqn:G; [discriminate|].
+           assert (byte_l ((tot * 10 + (c - 48)) :: lab)) as Hn by (constructor; [lia|assumption]).
+           apply (IH _ _ _ _ _ _ _ _ Ht' HL Hn) in H; [exact H|]. intros; discriminate.
+        -- apply (IH _ _ _ _ _ _ _ _ Ht' HL Hlab) in H; [exact H|]. intros _ _. lia.
+    + destruct (c =? 46).
+      * destruct lab as [|x lab0] eqn:El; [discriminate|].
+        assert (Forall byte_l (rev (x :: lab0) :: L)) as HL2
+          by (constructor; [apply Forall_rev; exact Hlab|exact HL]).
+        apply (IH _ _ _ _ _ _ _ _ Ht' HL2 (Forall_nil _)) in H; [exact H|]. intros; discriminate.
+      * destruct (c =? 92).
+        -- apply (IH _ _ _ _ _ _ _ _ Ht' HL Hlab) in H; [exact H|]. intros _ Hn. congruence.
+        -- apply (IH _ _ _ _ _ _ _ _ Ht' HL Hclab) in H; [exact H|]. intros; discriminate.
+Qed.
+
+Lemma AllBytes_iff (n : name) : AllBytes n <-> Forall byte_l n.
+Proof. reflexivity. Qed.
+
+Theorem from_text_bytes text origin n :
+  byte_l text -> (forall o, origin = Some o -> AllBytes o) ->
+  from_text text origin = Ok n -> AllBytes n.
+Proof.
+  intros Ht Ho H. unfold from_text in H. cbv zeta in H.
+  set (t := match text with [64] => [] | _ => text end) in H.
+  assert (byte_l t) as Htt.
+  { destruct (list_eq_dec Z.eq_dec text [64]) as [->|Hn]; [constructor|].
+    unfold t. rewrite at_match by assumption. exact Ht. }
+  destruct (list_eq_dec Z.eq_dec t [46]) as [Et|Et].
+  { rewrite Et in H. apply mk_name_ok in H. destruct H as [-> _]. repeat constructor. }
+  rewrite dot_match in H by assumption.
+  assert (forall labels : name, AllBytes labels ->
+            mk_name (if negb (ends_with_root labels)
+                     then match origin with Some o => labels ++ o | None => labels end
+                     else labels) = Ok n -> AllBytes n) as Fin.
+  { intros labels HB M. apply mk_name_ok in M. destruct M as [-> _].
+    destruct (negb (ends_with_root labels)); [|exact HB].
+    destruct origin as [o|]; [|exact HB]. apply Forall_app. split; [exact HB|apply Ho; reflexivity]. }
+  destruct t as [|h t'].
+  { cbn [bind] in H. apply (Fin [] ); [constructor|exact H]. }
+  destruct (ft_loop (h :: t') [] [] false 0%nat 0) as [[[labels lab] esc]| |] eqn:E; cbn [bind] in H; try discriminate.
+  destruct esc; cbn [bind] in H; [discriminate|].
+  assert (false = true -> 0%nat <> 0%nat -> 0 <= 0) as H00 by (intros; lia).
+  destruct (ft_loop_bytes _ _ _ _ _ _ _ _ _ Htt (Forall_nil _) (Forall_nil _) H00 E) as [HL Hlab].
+  apply (Fin (rev (rev lab :: labels))); [|exact H].
+  apply Forall_rev. constructor; [apply Forall_rev; exact Hlab|exact HL].
+Qed.
+
+(* any text the library accepts yields a name whose printed form parses back to that name *)
+Theorem text_normal_form text origin n :
+  byte_l text -> (forall o, origin = Some o -> AllBytes o) ->
+  from_text text origin = Ok n ->
+  AllBytes n /\ from_text (to_text n) None = Ok n.
+Proof.
+  intros Ht Ho H. pose proof (from_text_bytes _ _ _ Ht Ho H) as HB. split; [exact HB|].
+  apply text_roundtrip; [|exact HB].
+  unfold from_text in H. cbv zeta in H.
+  set (t := match text with [64] => [] | _ => text end) in H.
+  destruct (list_eq_dec Z.eq_dec t [46]) as [Et|Et].
+  - rewrite Et in H. apply mk_name_ok in H. destruct H as [-> V]. exact V.
+  - rewrite dot_match in H by assumption. unfold bind in H.
+    destruct (match t with [] => Ok [] | _ :: _ => _ end) as [labels| |]; try discriminate.
+    apply mk_name_ok in H. destruct H as [-> V]. exact V.
+Qed.
